@@ -171,7 +171,8 @@ Proof.
   - unfold bytes_ok. rewrite Forall_forall. intros x Hx. apply in_map_iff in Hx.
     destruct Hx as (n & <- & Hn). apply in_seq in Hn. lia.
   - split; [vm_compute; reflexivity|]. split; [|reflexivity].
-    eexists. split; vm_compute; reflexivity.
+    exists {| sh_prefix := 0x4000000000000000; sh_mask := 0xC000000000000000 |}.
+    split; vm_compute; reflexivity.
 Qed.
 
 (* FINDING (liteclient ParseADNLAddress): a correctly padded last quantum
